@@ -1,3 +1,64 @@
-From Darr Require Import Base ArrayModel.
-Theorem C03_placeholder : True. Proof. exact I. Qed.
-Print Assumptions C03_placeholder.
+(* C03 -- Array histories of append/assign/truncate equal the NumPy model and persist.
+   Property theorems only (over the hand-written model ArrayModel.v, tied to
+   darr/array.py by the correspondence check of harness/p03.py). *)
+From Coq Require Import ZArith List Bool.
+From Darr Require Import Base ArrayModel Spec Proofs.ArrayRefine Proofs.ArrayHist.
+Import ListNotations.
+Open Scope Z_scope.
+
+(* Every history: the outcome of every step and the resulting state (dtype, shape,
+   len, contents, on disk and in the live handle) are those of the NumPy model *)
+Theorem C03_refines : forall os w s,
+  Rel w s -> wf_ops s os ->
+  run_outs w os = spec_outs s os /\ Rel (run w os) (spec_run s os).
+Proof. exact run_refines. Qed.
+Print Assumptions C03_refines.
+
+(* ... and a freshly opened handle reports the same state as the live one *)
+Theorem C03_fresh_agrees : forall w s m, Rel w s ->
+  open_dir (snd w) m = Ok (mkHandle m (h_nt (fst w)) (h_bo (fst w)) (h_shape (fst w))) /\
+  view_of (snd w) = Some (s_nt s, s_bo s, s_shape s, concat (s_rows s)).
+Proof. exact fresh_agrees. Qed.
+Print Assumptions C03_fresh_agrees.
+
+Theorem C03_append_prefix_stable : forall w s cs, Rel w s -> wf_op s (OpIterAppend cs) ->
+  exists old tail_, a_data (snd w) = Some old /\
+                    a_data (snd (snd (step w (OpIterAppend cs)))) = Some (old ++ tail_).
+Proof. exact append_prefix_stable. Qed.
+Print Assumptions C03_append_prefix_stable.
+
+Theorem C03_truncate_keeps_prefix : forall w s idx, Rel w s ->
+  exists old n, a_data (snd w) = Some old /\
+                a_data (snd (snd (step w (OpTruncate idx)))) = Some (firstn n old).
+Proof. exact truncate_keeps_prefix. Qed.
+Print Assumptions C03_truncate_keeps_prefix.
+
+Theorem C03_rejected_unchanged : forall w s o, Rel w s -> wf_op s o ->
+  (exists i, o = OpTruncate i) \/ (exists x, o = OpSetItem x) \/ (exists c, o = single_append c) ->
+  is_ok (fst (step w o)) = false -> Rel (snd (step w o)) s.
+Proof. exact rejected_unchanged. Qed.
+Print Assumptions C03_rejected_unchanged.
+
+Theorem C03_rejections : forall s,
+  s_mode s = RW ->
+  (forall t rows, t <> s_tail s -> fst (spec_step s (single_append (CGood t rows))) = false) /\
+  fst (spec_step s (OpTruncate None)) = false /\
+  (forall i, ~ (0 <= slice_len i (s_len s) < s_len s) -> fst (spec_step s (OpTruncate (Some i))) = false) /\
+  (forall i, 0 <= slice_len i (s_len s) < s_len s -> fst (spec_step s (OpTruncate (Some i))) = true).
+Proof. exact rejections. Qed.
+Print Assumptions C03_rejections.
+
+(* non-vacuity: a concrete int16 (2,2) array satisfies Rel, and a mixed history runs *)
+Definition ex_s : sarr := mkSarr Int16 Little OrdC [2] [[1;0;2;0]; [3;0;4;0]] RW false.
+Definition ex_w : world :=
+  (mkHandle RW Int16 Little [2;2],
+   mkDir (Some [1;0;2;0;3;0;4;0]) (Val (mkDescr Int16 Little [2;2] OrdC))
+         (Val (mkDescr Int16 Little [2;2] OrdC, false)) false).
+Example C03_rel_example : Rel ex_w ex_s.
+Proof. unfold Rel, ex_w, ex_s; cbn. repeat split; try reflexivity; repeat constructor. Qed.
+Example C03_history_example :
+  let os := [OpIterAppend [CGood [2] [[5;0;6;0]]; CGood [3] [[9;9;9;9;9;9]]];
+             OpTruncate (Some (-1)); OpSetItem (Some [(2, [7;7])]); OpTruncate (Some 5)] in
+  wf_ops ex_s os /\ run_outs ex_w os = [false; true; true; false] /\
+  a_data (snd (run ex_w os)) = Some [1;0;7;7;3;0;4;0].
+Proof. cbn. repeat split; repeat constructor; intros; try discriminate; repeat constructor. Qed.
